@@ -27,3 +27,45 @@ Section FlatePinned.
     | None => Err ETransform
     end.
 End FlatePinned.
+
+(* Adler-32 (RFC 1950) — also used for the digests in the case protocol *)
+Definition adler32 (s : bytes) : N :=
+  let '(a, b) := fold_left (fun ab x => let a' := ((fst ab + x) mod 65521)%N in (a', ((snd ab + a') mod 65521)%N))
+                           s (1%N, 0%N) in
+  (b * 65536 + a)%N.
+
+(* ---------- a Gallina inflate for zlib streams made of STORED blocks (RFC 1951 BTYPE 00) ----------
+   Not used by the model runner: it is the witness that the oracle hypothesis of C06_flate / C06_chain
+   can be satisfied (Proofs/FiltersInflate0.v), for every chunking and every payload. *)
+Fixpoint blocks0 (fuel : nat) (s : bytes) : option (bytes * bytes) :=
+  match fuel with
+  | O => None
+  | S f =>
+    match s with
+    | h :: l0 :: l1 :: n0 :: n1 :: r =>
+      if negb ((h / 2) mod 4 =? 0)%N then None                       (* BTYPE must be 00 *)
+      else if negb ((l0 + 256 * l1) + (n0 + 256 * n1) =? 65535)%N then None   (* NLEN = one's complement of LEN *)
+      else
+        let n := N.to_nat (l0 + 256 * l1) in
+        if Nat.ltb (len r) n then None
+        else if (h mod 2 =? 1)%N then Some (firstn n r, skipn n r)  (* BFINAL *)
+        else match blocks0 f (skipn n r) with
+             | Some (o, t) => Some (firstn n r ++ o, t)
+             | None => None
+             end
+    | _ => None
+    end
+  end.
+
+Definition inflate0 (data : bytes) : option (bytes * bytes) :=
+  match data with
+  | cmf :: flg :: r =>
+    if ((cmf mod 16 =? 8) && (cmf / 16 <=? 7) && ((cmf * 256 + flg) mod 31 =? 0) && ((flg / 32) mod 2 =? 0))%N then
+      match blocks0 (S (len r)) r with
+      | Some (out, a0 :: a1 :: a2 :: a3 :: t) =>
+        if (a0 * 16777216 + a1 * 65536 + a2 * 256 + a3 =? adler32 out)%N then Some (out, t) else None
+      | _ => None
+      end
+    else None
+  | _ => None
+  end.
